@@ -58,6 +58,17 @@ def direct_cases(tier, seed):
             s += rng.choice([[0x0a], [0x0a], [0x0d, 0x0a]])
         v = rng.random() < 0.3
         cases.append(("%d %s" % (v, encb(utf8(s))), s, v))
+    # a closer that does not match while SEVERAL brackets are open (rejected: the text stays), then a line whose backspaces
+    # erase the offending part and which closes properly: every verdict starts from a clean slate
+    for k in range(n // 10):
+        opens = [rng.choice([0x28, 0x5b, 0x7b]) for _ in range(rng.randint(2, 4))]
+        closer = {0x28: 0x29, 0x5b: 0x5d, 0x7b: 0x7d}
+        wrong = rng.choice([c for c in (0x29, 0x5d, 0x7d) if c != closer[opens[-1]]])
+        s = opens + [wrong] + rng.choice([[0x0a], [0x0d, 0x0a]])
+        keep = rng.randint(1, len(opens))
+        s += [0x08] * (len(opens) - keep + 1) + [closer[c] for c in reversed(opens[:keep])] + [0x0a]
+        s += [rng.choice([0x78, 0x79])] + [0x0a] + ([0x28, 0x29, 0x0a] if rng.random() < 0.5 else [])
+        cases.append(("1 %s" % encb(utf8(s)), s, True))
     # the scripted validator (every verdict, errors included): ## error, !! invalid with a message, ~~ invalid with an
     # empty message, ?? invalid without message, trailing backslash incomplete, ok valid with a message
     frag = [[0x23, 0x23], [0x21, 0x21], [0x7e, 0x7e], [0x3f, 0x3f], [0x5c], [0x6f, 0x6b], [0x61], [0x62], [0x20], [0xe9],
@@ -71,7 +82,12 @@ def direct_cases(tier, seed):
         if rng.random() < 0.3:
             s += rng.choice(frag)                 # a last line without terminator
         cases.append(("2 %s" % encb(utf8(s)), s, 2))
-    return cases
+    # the same streams with TERM=dumb: the unsupported-terminal test sends the read down the same non-interactive path
+    extra = []
+    for (line, s, v) in rng.sample(cases, min(len(cases), n // 5)):
+        kind, rest = line.split(" ", 1)
+        extra.append(("%sd %s" % (kind, rest), s, v))
+    return cases + extra
 
 
 def script_verdict(s):
